@@ -279,6 +279,53 @@ pub fn run_check(replay: Option<Value>) -> i32 {
         out.sample = Some(desc);
         Some(out)
     });
+    // intervals that contain zero, with coarse steps: the last step is longer than the distance of its left end
+    // from the origin (xold + (xend - xold) need not be xend), for the methods that put the end on xend itself
+    const CROSS: [(f64, f64); 8] = [(-1.0, 0.3), (-2.0, 0.1), (1.0, -0.3), (3.0, -0.05), (-5.0, 0.2), (-1.0, 0.001), (2.0, -0.007), (-0.7, 0.7)];
+    let xdims = vec![dim("method", &M6.iter().map(|m| mname(*m)).collect::<Vec<_>>()), dim("interval", &CROSS.iter().map(|(a, b)| format!("[{},{}]", a, b)).collect::<Vec<_>>()), dim("steps", &["coarse", "coarser"])];
+    lattice(&mut rep, "cross", &xdims, only.as_deref(), |key, idx| {
+        let m = M6[idx[0]];
+        let (x0, xend) = CROSS[idx[1]];
+        let p = base(Base::Harmonic(1.0));
+        let mut c0 = Cfg::new(m, x0, xend, &p.y0).tol([0.1, 0.3][idx[2]], 1e-3);
+        c0.user_jac = true;
+        c0.first_step = Some((xend - x0) * [0.7 / 1.3, 0.19][idx[2]]);
+        let desc = json!({"key": key, "point": describe(&xdims, idx), "cfg": c0.json(&p.name)});
+        let mut out = CaseOut::default();
+        let plain = run(&p, &c0);
+        let ps = match &plain.out {
+            Outcome::Ok(s) if s.status == Status::Success => s,
+            _ => return None,
+        };
+        out.events = plain.st.n_ode;
+        for (label, dense, te) in [("{dense}", true, false), ("{t_eval}", false, true), ("{t_eval dense}", true, true)] {
+            let mut c = c0.clone();
+            c.dense = dense;
+            if te {
+                c.t_eval = Some(vec![x0, x0 + (xend - x0) / 3.0, xend]);
+            }
+            let r = run(&p, &c);
+            out.events += r.st.n_ode;
+            match &r.out {
+                Outcome::Ok(s) => {
+                    let st = |s: &Solution| (s.nfev, s.njev, s.nlu, s.nstep, s.naccpt, s.nrejct);
+                    let same_grid = te || (s.t.len() == ps.t.len() && s.t.iter().zip(&ps.t).all(|(a, b)| a.to_bits() == b.to_bits()) && s.y.iter().zip(&ps.y).all(|(a, b)| a.iter().zip(b).all(|(u, w)| u.to_bits() == w.to_bits())));
+                    if s.status != ps.status || r.st.fp != plain.st.fp || st(s) != st(ps) || !same_grid {
+                        out.violations.push(
+                            Violation::new(key, "integration-perturbed", format!("subset {} on [{},{}]: status {:?} (plain {:?}), statistics {:?} (plain {:?}), RHS record {}, accepted steps and states {} (last time {:?}, plain {:?})", label, x0, xend, s.status, ps.status, st(s), st(ps), if r.st.fp == plain.st.fp { "identical" } else { "differs" }, if same_grid { "identical" } else { "differ" }, s.t.last(), ps.t.last()), desc.clone())
+                                .with("method", mname(m)),
+                        );
+                    }
+                    out.validated += 1;
+                }
+                _ => out.violations.push(Violation::new(key, "outcome", format!("subset {} ended with {}", label, r.outcome_name()), desc.clone()).with("method", mname(m))),
+            }
+        }
+        out.tag("interval-across-zero");
+        out.fp = Some(plain.st.fp.as_u128() ^ 0x30);
+        out.sample = Some(desc);
+        Some(out)
+    });
     if only.is_some() {
         for v in &rep.violations {
             println!("replay: VIOLATED [{}]: {}\n{}", v.sig["check"], v.msg, serde_json::to_string_pretty(&v.case).unwrap());
@@ -291,6 +338,7 @@ pub fn run_check(replay: Option<Value>) -> i32 {
     rep.require("eight-subsets", 100);
     rep.require("long-run", 6);
     rep.require("tiny-span", 12);
+    rep.require("interval-across-zero", 60);
     rep.rule = "for every lattice point the plain run and all 8 subsets of {t_eval, dense_output, non-terminal events} are run twice; oracle: identical 128-bit fingerprint of every non-Jacobian RHS call (time and state bits: the complete record of the integration), identical statistics, identical accepted steps and states when no t_eval is given, final state, repeatability; runs of more than 1.3e5 accepted steps with {dense}, {t_eval}, {t_eval dense}; distinct = distinct plain-run fingerprints".into();
     rep.finish()
 }
